@@ -9,6 +9,7 @@ GEN_MAIN = '''package main
 import (
 	"fmt"
 	"os"
+	"path/filepath"
 
 	"goa.design/goa/v3/codegen/generator"
 	"goa.design/goa/v3/eval"
@@ -16,11 +17,25 @@ import (
 )
 
 func main() {
+	cmd := "gen"
+	if len(os.Args) > 1 {
+		cmd = os.Args[1]
+	}
 	if err := eval.RunDSL(); err != nil {
 		fmt.Fprintln(os.Stderr, "DSL-ERROR:", err)
 		os.Exit(3)
 	}
-	if _, err := generator.Generate(".", "gen"); err != nil {
+	if cmd == "gen" {
+		// what the goa tool does before regenerating: drop the sub-directories of gen/
+		if entries, err := os.ReadDir("gen"); err == nil {
+			for _, e := range entries {
+				if e.IsDir() {
+					os.RemoveAll(filepath.Join("gen", e.Name()))
+				}
+			}
+		}
+	}
+	if _, err := generator.Generate(".", cmd); err != nil {
 		fmt.Fprintln(os.Stderr, "GEN-ERROR:", err)
 		os.Exit(4)
 	}
@@ -28,10 +43,76 @@ func main() {
 '''
 
 
+def tree_hash(root, sub):
+    import hashlib
+    out = {}
+    base = os.path.join(root, sub)
+    for dp, dn, fn in os.walk(base):
+        for f in fn:
+            p = os.path.join(dp, f)
+            out[os.path.relpath(p, root)] = hashlib.sha256(open(p, "rb").read()).hexdigest()
+    return out
+
+
+def run_cmd(d, cmd):
+    r = subprocess.run(["go", "run", "./cmd/gen", cmd], cwd=d, env=GOENV, capture_output=True, text=True)
+    return r.returncode, r.stderr[-2000:]
+
+
+def history(design, repo, tmp, processes=4):
+    """Concrete generator-history experiment for C09. Returns a list of problems (empty = all held)."""
+    problems = []
+    d, err = generate(design, repo, tmp)
+    if err:
+        return ["generator failed: " + err[-500:]]
+    h1 = tree_hash(d, "gen")
+    # gen again over its own output, fresh process
+    rc, e = run_cmd(d, "gen")
+    if rc != 0:
+        problems.append("second gen failed: " + e)
+    h2 = tree_hash(d, "gen")
+    if h2 != h1:
+        diff = sorted(k for k in set(h1) | set(h2) if h1.get(k) != h2.get(k))
+        problems.append("gen;gen differs in " + ", ".join(diff[:5]))
+    # fresh processes / directories
+    for i in range(processes):
+        di, err = generate(design, repo, os.path.join(tmp, "p%d" % i))
+        if err:
+            problems.append("repeat %d failed" % i)
+            continue
+        hi = tree_hash(di, "gen")
+        if hi != h1:
+            diff = sorted(k for k in set(h1) | set(hi) if h1.get(k) != hi.get(k))
+            problems.append("fresh process %d differs in %s" % (i, ", ".join(diff[:5])))
+            break
+    # example; edit; example
+    rc, e = run_cmd(d, "example")
+    if rc != 0:
+        problems.append("example failed: " + e)
+        return problems
+    ex_files = [p for p in tree_hash(d, ".") if not p.startswith(("gen/", "cmd/gen/", "design/", "vh/")) and p.endswith(".go")]
+    for p in ex_files:
+        open(os.path.join(d, p), "a").write("\n// edited by the user\n")
+    before = {p: open(os.path.join(d, p), "rb").read() for p in ex_files}
+    rc, e = run_cmd(d, "example")
+    if rc != 0:
+        problems.append("second example failed: " + e[-400:])
+    for p in ex_files:
+        if open(os.path.join(d, p), "rb").read() != before[p]:
+            problems.append("example clobbered existing file " + p)
+    # example must not disturb gen
+    rc, e = run_cmd(d, "gen")
+    h3 = tree_hash(d, "gen")
+    if rc != 0 or h3 != h1:
+        problems.append("gen after example differs")
+    return problems
+
+
 def generate(design, repo, tmp, protoc_dir=None):
     """Creates tmp/<design> as module vdesign with gen/ produced by the real generator. Returns (dir, error)."""
     src = os.path.join(VERIF, "designs", design)
     d = os.path.join(tmp, "g_" + design)
+    os.makedirs(tmp, exist_ok=True)
     os.makedirs(os.path.join(d, "design"))
     os.makedirs(os.path.join(d, "cmd", "gen"))
     os.makedirs(os.path.join(d, "vh"))
@@ -44,7 +125,7 @@ def generate(design, repo, tmp, protoc_dir=None):
     env = dict(GOENV)
     if protoc_dir:
         env["PATH"] = protoc_dir + ":" + env["PATH"]
-    r = subprocess.run(["go", "run", "./cmd/gen"], cwd=d, env=env, capture_output=True, text=True)
+    r = subprocess.run(["go", "run", "./cmd/gen", "gen"], cwd=d, env=env, capture_output=True, text=True)
     if r.returncode != 0:
         return d, (r.stderr[-3000:] or "generator failed")
     return d, None
